@@ -236,7 +236,9 @@ def eval_adverb_over(f, a, op, backend):
     if is_atom(a):
         return a
     if len(a) == 1:
-        return a[0]
+        return KGChar(a[0]) if isinstance(a,str) else a[0]
+    if isinstance(a,str):
+        return functools.reduce(f, backend.str_to_chr_arr(a))
     # Use backend's ufunc reduce when available for better performance
     np_backend = backend.np
     if isinstance(op, KGOp):
